@@ -193,7 +193,7 @@ class Check:
             'wall_s': round(wall, 3),
             'violations': len(self.violations),
         }
-        evdir = VERIF / 'evidence'
+        evdir = Path(os.environ.get('VERIF_EVIDENCE_DIR') or (VERIF / 'evidence'))
         evdir.mkdir(exist_ok=True)
         evpath = evdir / f'{self.pid}.json'
         evpath.write_text(json.dumps(ev, indent=1, sort_keys=True) + '\n')
